@@ -23,6 +23,8 @@ type binder struct {
 	inlineD int
 	// classOf: rendered name of every module function that appears as an opaque call -> its signature class
 	classOf map[string]string
+	// useSite: when set, fieldRef of a local struct variable considers whether the field was assigned before this point
+	useSite ssa.Instruction
 	// carrier struct types whose fields are looked through (field-based): values stored into T.f
 	carriers map[string]bool
 	fieldSrc map[string][]ssa.Value // "Type.field" -> values stored (for carriers)
@@ -382,18 +384,70 @@ func (b *binder) fieldRef(base ssa.Value, field int, d int) string {
 				}
 			}
 		}
-		for _, sv := range cellStores(a) {
+		whole := cellStores(a)
+		for _, sv := range whole {
 			as = append(as, selectField(b.bindD(sv, d+1), fname))
+		}
+		// when the caller says where the value is used (useSite): the field still holds its zero value there unless an
+		// assignment of the whole variable or of this field dominates that point
+		if b.useSite != nil {
+			written := false
+			for _, r := range *a.Referrers() {
+				switch x := r.(type) {
+				case *ssa.Store:
+					if x.Addr == ssa.Value(a) && dominatesInstr(x, b.useSite) {
+						written = true
+					}
+				case *ssa.FieldAddr:
+					if x.Field == field {
+						for _, r2 := range *x.Referrers() {
+							if st, ok := r2.(*ssa.Store); ok && st.Addr == ssa.Value(x) && dominatesInstr(st, b.useSite) {
+								written = true
+							}
+						}
+					}
+				}
+			}
+			if !written {
+				as = append(as, "zero("+typeName(deref(a.Type()))+")."+fname)
+			}
 		}
 		if len(as) > 0 {
 			return alts(as)
 		}
 		return "zero(" + typeName(deref(a.Type())) + ")." + fname
 	}
+	if phi, ok := base.(*ssa.Phi); ok && d < 20 {
+		// the field of whichever object the variable denotes
+		var as []string
+		for i, e := range phi.Edges {
+			if e == ssa.Value(phi) {
+				continue
+			}
+			saved := b.useSite
+			if saved != nil {
+				pred := phi.Block().Preds[i]
+				b.useSite = pred.Instrs[len(pred.Instrs)-1] // the value flows in at the end of this predecessor
+			}
+			as = append(as, b.fieldRef(e, field, d+1))
+			b.useSite = saved
+		}
+		cyclic := false
+		for _, a := range as {
+			if strings.Contains(a, "…") {
+				cyclic = true
+			}
+		}
+		if len(as) > 0 && !cyclic {
+			return alts(as)
+		}
+	}
 	bs := b.bindD(base, d+1)
 	switch base.(type) {
 	case *ssa.FieldAddr, *ssa.IndexAddr:
 		bs = strings.TrimPrefix(bs, "&") // the address of the enclosing object: select the field of the object itself
+	case *ssa.FreeVar, *ssa.UnOp:
+		return selectField(bs, fname) // a captured variable / a loaded pointer: the field of the object it denotes
 	}
 	return bs + "." + fname
 }
@@ -554,9 +608,22 @@ func paramRef(x *ssa.Parameter) string {
 
 // selectField renders e.f, distributing over alternatives and dropping an address-of prefix.
 func selectField(e, f string) string {
-	e = strings.TrimPrefix(e, "&")
-	if strings.HasPrefix(e, "(") && strings.HasSuffix(e, ")") && balanced(e[1:len(e)-1]) {
-		e = e[1 : len(e)-1]
+	// the field of the object that an address, a pointer or a captured variable denotes
+	for changed := true; changed; {
+		changed = false
+		for _, pre := range []string{"&", "cell(", "deref(", "("} {
+			if pre == "&" {
+				if strings.HasPrefix(e, "&") {
+					e = e[1:]
+					changed = true
+				}
+				continue
+			}
+			if strings.HasPrefix(e, pre) && strings.HasSuffix(e, ")") && balanced(e[len(pre):len(e)-1]) && !strings.HasPrefix(e, "phi(") {
+				e = e[len(pre) : len(e)-1]
+				changed = true
+			}
+		}
 	}
 	return e + "." + f
 }
